@@ -24,6 +24,7 @@ META = {
 }
 META['bounds'].append('concrete sequences (enumeration, no solver): ratios list changed in place / extended between two calls, quantized quantity ratios (pieces, yen, bytes) x 3 receivers x 3 modes')
 META['bounds'].append('concrete sequences: money ratios in two currencies under a registered converter (3 vectors)')
+META['bounds'].append('concrete sequences: ratios whose total has no finite decimal expansion (5 vectors)')
 
 VECTORS = [['1', '1', '1'], ['38', '5', '2', '15'], ['1', '2'], ['0.3', '0.7'], ['1/3', '1/3', '1/3'],
            ['5'], ['1', '1', '1', '1', '2'], ['7', '3', '2'], ['0.5', '0.25', '0.125'], ['2', '3', '5', '7']]
